@@ -41,7 +41,8 @@
 (*         badly scaled but consistent instrument)                         *)
 (*   TRM   TRL-shaped but not TRL: through, line with unknown transmission *)
 (*         and a double reflect with the unknown on one port and a         *)
-(*         different, known reflect on the other (10 equations for 7 + 2   *)
+(*         different, known reflect (predefined OPEN / SHORT or a scalar   *)
+(*         parameter) on the other, either port (10 equations for 7 + 2    *)
 (*         unknowns; identifiable: the known reflect fixes what the second *)
 (*         appearance of the unknown fixes in TRL)                         *)
 (*   TRLM  through, reflect (one unknown on both ports) and a line with    *)
